@@ -312,6 +312,15 @@ pub fn c08(known: &Known) -> CoreScenario {
         sys_key(A, "graveGoods"),
         sys_key(A, "protocol"),
         sys_key(A, "clientName"),
+        // every length around the client's own subtree: the guard indexes into the split key
+        s("$SYS/clients"),
+        format!("$SYS/clients/{}", cid(A)),
+        format!("$SYS/clients/{}", cid(B)),
+        format!("$SYS/clients/{}/", cid(A)),
+        format!("$SYS/clients/{}/graveGoods/x", cid(A)),
+        format!("$SYS/clients/{}/?", cid(A)),
+        s("$SYS/clients/?"),
+        s("$SYS/"),
     ];
     let mut ops = vec![];
     for k in &shapes {
@@ -330,6 +339,9 @@ pub fn c08(known: &Known) -> CoreScenario {
         ops.push(Op::Set(A, sys_key(A, "graveGoods"), g));
     }
     ops.push(Op::Set(A, sys_key(A, "lastWill"), json!([{"key": "$SYS/s1", "value": "evil"}, {"key": "u", "value": 1}])));
+    // malformed registrations: refused, and a refused request must leave nothing behind
+    ops.push(Op::Set(A, sys_key(A, "lastWill"), json!(["x"])));
+    ops.push(Op::CSet(A, sys_key(A, "graveGoods"), json!({"a": 1}), 0));
     ops.push(Op::Disconnect(A));
     ops.push(Op::Connect(A));
     let probe = Probe {
